@@ -262,14 +262,26 @@ theorem mapM_toStr' (ts : List Str) : ts.mapM (toStr ∘ utf8Bytes) = some ts :=
 
 /-- **What `PublishHandler` reads is what was posted**: topics in order, data, id, type, the retry
     text and the private flag — for all UTF-8 strings (line breaks, '&', '=', '+', '%', ';', spaces, non-ASCII…). -/
-theorem fieldsOf_bodyOf (topics : List Str) (retry data id type : Str) (priv : Bool) :
+theorem fieldsOf_bodyOf (topics : List Str) (retry data id type : Str) (priv : Bool)
+    (hlen : (bodyOf topics retry data id type priv).length ≤ maxFormSize) :
     fieldsOf (bodyOf topics retry data id type priv) =
       some { formOk := true, topics := topics, retry := retry, priv := priv, data := data, id := id, type := type } := by
-  unfold fieldsOf bodyOf
+  unfold fieldsOf parsePostForm
+  rw [if_neg (by omega)]
+  unfold bodyOf
   rw [parseQuery_encodePairs]
   simp only [getFirst, valuesOf_append, valuesOf_map_const]
   simp only [kTopic, kData, kId, kType, kRetry, kPrivate]
   cases priv <;>
     simp [valuesOf, mapM_toStr', toStr_utf8Bytes, kTopic', kData', kId', kType', kRetry', kPrivate']
+
+/-- **A body over the limit is never read in part**: whatever it contains, `ParseForm` fails and no field
+    (topic, data, id, type, retry, private) is taken from it. -/
+theorem fieldsOf_too_large (body : Bytes) (h : maxFormSize < body.length) :
+    fieldsOf body =
+      some { formOk := false, topics := [], retry := [], priv := false, data := [], id := [], type := [] } := by
+  unfold fieldsOf parsePostForm
+  rw [if_pos h]
+  decide
 
 end Mercure.Form
